@@ -107,6 +107,24 @@ theorem avRun_spec (w : World) (xid cid : Nat) (hx : xid ≠ 0) (hc : cid < 1000
     · exact ih4
 
 
+/-- the rows of the other ledgers are not touched (no reference to the Spec) -/
+theorem avRun_other (w : World) (xid cid : Nat) (hx : xid ≠ 0) (hc : cid < 1000000000) (l : String) :
+    ∀ (rows : List VolumeRow) (rs : List Ver) (nr : Nat), AvInv (latestView w xid) rs nr →
+      ∀ l', l' ≠ l → ∀ k, avView (latestView w xid) (avRun (latestView w xid) xid cid l rows (rs, nr)).1.1 l' k =
+          avView (latestView w xid) rs l' k := by
+  intro rows
+  induction rows with
+  | nil => intro rs nr _ l' _ k; rfl
+  | cons r rest ih =>
+    intro rs nr hinv l' hl k
+    have hother := avGet_step_other w xid cid l r.accounts_address r.asset r.input_ r.output_ rs nr hx hc hinv
+    have hinv1 := avStep_inv w xid cid l r.accounts_address r.asset r.input_ r.output_ rs nr hx hc hinv
+    rw [show (avRun (latestView w xid) xid cid l (r :: rest) (rs, nr)).1.1 =
+      (avRun (latestView w xid) xid cid l rest (avStep (latestView w xid) xid cid l r.accounts_address r.asset r.input_ r.output_ (rs, nr)).1).1.1 from rfl]
+    rw [ih _ _ hinv1 l' hl k]
+    simp only [avView]
+    rw [hother l' k.1 k.2 (by intro ⟨h1, _, _⟩; exact hl h1.symm)]
+
 /-- a key that no row mentions keeps its value -/
 theorem get?_upsert_notMem (vu : PCV) : ∀ (av : PCV), Map.WF av → ∀ k, k ∉ vu.map (·.1) →
     (Spec.upsertVolumes av vu).1.get? k = av.get? k := by
